@@ -331,7 +331,8 @@ def _p1_event(vc, as_operator=False):
 
 @harness('P1', targets=['kopf._core.engines.peering.Peer.__init__', 'kopf._core.engines.peering.Peer.as_dict',
                         'kopf._core.engines.peering.process_peering_event'],
-         props=['C13'],
+         props=['C13', 'C20', 'C03'],
+         prop_clauses={'C20': ['peer.default_lifetime', 'peer.deadline', 'peer.is_dead'], 'C03': ['peer.deadline', 'peer.is_dead', 'event.toggle', 'event.wakeup', 'event.touch_iff_uninterrupted']},
          clauses=['peer.fields', 'peer.default_lifetime', 'peer.deadline', 'peer.is_dead', 'peer.unknown_fields_ignored', 'peer.as_dict',
                   'event.foreign_ignored', 'event.toggle', 'event.clean_exactly_dead', 'event.wakeup',
                   'event.touch_iff_uninterrupted', 'event.failures_propagate'],
@@ -368,7 +369,8 @@ def P1(vc):
     return _p1_event(vc)
 
 
-@harness('P1d', targets=['kopf._core.engines.peering.process_peering_event'], props=['C13'],
+@harness('P1d', targets=['kopf._core.engines.peering.process_peering_event'], props=['C13', 'C03'],
+         prop_clauses={'C03': ['event.toggle', 'event.wakeup', 'event.touch_iff_uninterrupted']},
          clauses=['event.foreign_ignored', 'event.toggle', 'event.clean_exactly_dead', 'event.wakeup',
                   'event.touch_iff_uninterrupted', 'event.failures_propagate'],
          canaries=['canary.event_never_cleans', 'canary.event_never_touches', 'canary.event_never_pauses'],
